@@ -4,6 +4,7 @@ import (
 	"fmt"
 	"os"
 	"path/filepath"
+	"strings"
 	"sync"
 	"time"
 
@@ -47,6 +48,9 @@ func C10(c *core.Ctx) {
 		if timedOut || !si0.closed {
 			c.Inconclusive(fmt.Sprintf("counting run for %s did not end: %s", cfg.name, tailStr(out, 400)))
 			continue
+		}
+		if ci == 0 || c.Thorough() {
+			hookFidelity(c, work, cfg, ci)
 		}
 		pts := pickKillPoints(c, si0.events, c.Pick(1, 4), c.Pick(10, 80), "img-"+cfg.name)
 		// image run
@@ -104,5 +108,46 @@ func C10(c *core.Ctx) {
 		c.Inconclusive("no durable image was verified")
 	}
 	c.Sample(map[string]any{"images": len(jobs), "example": "image = files as of their last sync event, directory entries as of the last directory sync; verifier opens it; every commit acknowledged before the freeze must be visible"})
-	c.Assume("power loss is simulated from badger's own hook events (tag verif): a sync that happens without a hook event is not credited, a hook event without a real sync would be over-credited (the thorough tier audits the hook events against strace)")
+	c.Assume("power loss is simulated from badger's own hook events (tag verif): a sync that happens without a hook event is not credited; a hook event without a real sync would be over-credited, which the strace audit (sync-class hook events <= real msync/fsync/fdatasync calls of the same run) rules out for the audited runs")
+}
+
+// hookFidelity runs one SyncWrites workload child under strace and compares the number of sync-class
+// hook events (file syncs + directory syncs) with the number of real msync/fsync/fdatasync system
+// calls of the same process: every credited sync must be backed by a real one.
+func hookFidelity(c *core.Ctx, work string, cfg crashConfig, ci int) {
+	s, sp := newCrashSpec(c, work, cfg, 0, fmt.Sprintf("fidelity-%d", ci))
+	s.EndMode = "close"
+	s.Txns = 30
+	writeSpec(s, sp)
+	defer os.RemoveAll(filepath.Dir(sp))
+	trace := filepath.Join(filepath.Dir(sp), "strace.out")
+	out, timedOut, _ := runChild(300*time.Second, []string{"strace", "-f", "-o", trace, "-e", "trace=msync,fsync,fdatasync"}, c.ID, "--child-crash", sp)
+	si := parseSideLog(s.SideLog)
+	if timedOut || !si.closed {
+		c.Inconclusive("hook-fidelity run did not finish: " + tailStr(out, 200))
+		return
+	}
+	hooks := 0
+	for _, e := range si.events {
+		if strings.HasPrefix(e, "fs.sync.") || strings.HasPrefix(e, "fs.syncdir.") {
+			hooks++
+		}
+	}
+	b, err := os.ReadFile(trace)
+	if err != nil {
+		c.Inconclusive("strace output missing: " + err.Error())
+		return
+	}
+	real := strings.Count(string(b), " msync(") + strings.Count(string(b), " fsync(") + strings.Count(string(b), " fdatasync(")
+	c.Count("fidelity.hook_sync_events", int64(hooks))
+	c.Count("fidelity.real_sync_syscalls", int64(real))
+	c.Eval(1)
+	if hooks == 0 || real == 0 {
+		c.Inconclusive(fmt.Sprintf("hook-fidelity run observed %d hook events and %d system calls", hooks, real))
+		return
+	}
+	if hooks > real {
+		c.Violation("C10|hook-fidelity|sync-event-without-syscall", fmt.Sprintf("%d sync-class hook events but only %d msync/fsync/fdatasync system calls in the same run: a durability point is reported without a real sync", hooks, real), map[string]any{"config": cfg.name})
+	}
+	c.Distinct("hook-fidelity|" + cfg.name)
 }
